@@ -1,9 +1,10 @@
-import Pm.FrameDev
+import Pm.FrameConn
+import Pm.FrameOracle
 /-! Helper lemmas for C05, daemon level: `devPass`/`daemonPass` of `Pm/Daemon.lean` restated in pieces, the frame of
     `applyOuts`, and the single-run frame of one device's step inside the pass. -/
 namespace Pm.Daemon
 open Pm Pm.Client
-open Pm.Dev2 (Oracle CS Env Dev Action Store outCid cell)
+open Pm.Dev2 (Oracle CS Env Dev Action outCid cell)
 
 /-! ### restatement of `devPass` -/
 
@@ -250,22 +251,38 @@ theorem devPass_rest (p : PassIn) (a : DevAcc) (nd : Bytes × Dev) :
 
 /-! ### what the step reads -/
 
+/-- the same descriptor events for the descriptor of `nd` -/
+def SameEvents (p p' : PassIn) (nd : Bytes × Dev) : Prop :=
+  ∀ fd, nd.2.fd = some fd → p.envs.find? (fun x => x.fd == fd) = p'.envs.find? (fun x => x.fd == fd)
+
+/-- the kernel answers a device sees depend, of the pass input and the world, only on: the three counters (which number
+    the descriptors and pids it may be handed), the clock, the `connect`/`SO_ERROR` answers, and the descriptor event
+    addressed to its own descriptor — in particular not on the store -/
+theorem devEnv_reads (p p' : PassIn) (w w' : W) (nd : Bytes × Dev)
+    (h1 : w.nsock = w'.nsock) (h2 : w.npair = w'.npair) (h3 : w.nfork = w'.nfork)
+    (hn : p.now = p'.now) (hc : p.con = p'.con) (he : p.soe = p'.soe) (hev : SameEvents p p' nd) :
+    devEnv p w nd = devEnv p' w' nd := by
+  have hpp : ∀ s : Pm.Dev2.Store, Pm.Dev2.prePoll { nd.2 with args := s } = Pm.Dev2.prePoll nd.2 := fun _ => rfl
+  have hmk : mkDevEnv w { nd.2 with args := w.store } p.now p.con p.soe p.envs
+      = mkDevEnv w' { nd.2 with args := w'.store } p'.now p'.con p'.soe p'.envs := by
+    unfold mkDevEnv
+    dsimp only
+    rw [h1, h2, h3, hn, hc, he]
+    cases hfd : nd.2.fd with
+    | none => rfl
+    | some fd => simp only [hev fd hfd]
+  unfold devEnv
+  dsimp only
+  rw [hpp w.store, hpp w'.store, hmk]
+
 /-- the step of device `nd` reads, of the pass input and the world, only: the store, the three counters, the clock and
     the `connect`/`SO_ERROR` answers, and the descriptor event addressed to `nd`'s own descriptor -/
 theorem devStep_reads (p p' : PassIn) (w w' : W) (o : Oracle) (nd : Bytes × Dev)
     (hs : w.store = w'.store) (h1 : w.nsock = w'.nsock) (h2 : w.npair = w'.npair) (h3 : w.nfork = w'.nfork)
-    (hn : p.now = p'.now) (hc : p.con = p'.con) (he : p.soe = p'.soe)
-    (hev : ∀ fd, nd.2.fd = some fd → p.envs.find? (fun x => x.fd == fd) = p'.envs.find? (fun x => x.fd == fd)) :
+    (hn : p.now = p'.now) (hc : p.con = p'.con) (he : p.soe = p'.soe) (hev : SameEvents p p' nd) :
     devStep p w o nd = devStep p' w' o nd := by
-  have henv : devEnv p w nd = devEnv p' w' nd := by
-    unfold devEnv mkDevEnv
-    dsimp only
-    rw [hs, h1, h2, h3, hn, hc, he]
-    cases hfd : nd.2.fd with
-    | none => rfl
-    | some fd => simp only [hev fd hfd]
   unfold devStep
-  rw [henv, hs]
+  rw [devEnv_reads p p' w w' nd h1 h2 h3 hn hc he hev, hs]
 
 /-! ### the device phase of the pass as a whole -/
 
@@ -372,6 +389,160 @@ theorem install_world (w : W) (c : Cli) (com : Com) (names : List Name) :
     · simp only [List.nil_append] at h
       subst h
       exact Or.inr ⟨_, rfl⟩
+
+/-! ### two runs: what `_act_finish` reads of the store -/
+
+/-- the arglist entries the final reply looks at -/
+def replyEntries (c : CmdC) : List ArgC := c.names.filterMap fun n => c.args.find? (·.node == n)
+
+theorem finalReply_entries (ex : Bool) (c c' : CmdC) (h1 : c.com = c'.com) (h3 : c.error = c'.error)
+    (h : replyEntries c = replyEntries c') : finalReply ex c = finalReply ex c' := by
+  unfold replyEntries at h
+  unfold finalReply
+  simp only [h1, h3, h]
+
+theorem filterMap_congr' {α β} (f g : α → Option β) (l : List α) (h : ∀ x ∈ l, f x = g x) : l.filterMap f = l.filterMap g := by
+  induction l with
+  | nil => rfl
+  | cons x r ih =>
+    rw [List.filterMap_cons, List.filterMap_cons, h x (by simp), ih (fun y hy => h y (by simp [hy]))]
+
+/-- the targets of a command are `Q`-nodes -/
+def NamesQ (Q : Bytes → Bool) (names : List Name) : Prop := ∀ nb : Bytes, toChars nb ∈ names → Q nb = true
+
+theorem replyEntries_agree (Q : Bytes → Bool) (k : CmdC) (s s' : Pm.Dev2.Store) (hS : Pm.Dev2.SAgree Q s s') (hN : NamesQ Q k.names) :
+    replyEntries { k with args := (cell s k.al).map argC } = replyEntries { k with args := (cell s' k.al).map argC } := by
+  unfold replyEntries
+  dsimp only
+  apply filterMap_congr'
+  intro n hn
+  rw [List.find?_map, List.find?_map]
+  congr 1
+  have hi : ∀ x : Pm.Dev2.Arg, ((fun (y : ArgC) => y.node == n) ∘ argC) x = true → Q x.node = true := by
+    intro x hx
+    have : toChars x.node = n := by simpa [argC] using hx
+    exact hN x.node (by rw [this]; exact hn)
+  rw [← Pm.Dev2.find?_filter_of_imp _ (fun g => Q g.node) hi, ← Pm.Dev2.find?_filter_of_imp _ (fun g => Q g.node) hi (cell s' k.al), hS k.al]
+
+/-- client `g`'s command, if it has one, targets `Q`-nodes only -/
+def GOk (Q : Bytes → Bool) (w : W) (g : Nat) : Prop := ∀ c, cliRec w g = some c → ∀ k, c.cmd = some k → NamesQ Q k.names
+
+theorem updCli_rel (w w' : W) (id g : Nat) (f : Cli → Cli) (hf : ∀ c, (f c).id = c.id) (hc : cliRec w g = cliRec w' g) :
+    cliRec (updCli w id f) g = cliRec (updCli w' id f) g := by
+  by_cases h : id = g
+  · subst h; rw [updCli_self _ _ _ hf, updCli_self _ _ _ hf, hc]
+  · rw [updCli_other _ _ _ _ hf h, updCli_other _ _ _ _ hf h, hc]
+
+theorem updCli_GOk (Q : Bytes → Bool) (w : W) (id g : Nat) (f : Cli → Cli) (hf : ∀ c, (f c).id = c.id)
+    (hn : ∀ c k', cliRec w g = some c → (f c).cmd = some k' → NamesQ Q k'.names) (hG : GOk Q w g) :
+    GOk Q (updCli w id f) g := by
+  by_cases h : id = g
+  · subst h
+    intro c hc k hk
+    rw [updCli_self _ _ _ hf] at hc
+    cases hq : cliRec w id with
+    | none => rw [hq] at hc; simp at hc
+    | some c0 =>
+      rw [hq] at hc; simp at hc; subst hc
+      exact hn c0 k hq hk
+  · intro c hc k hk
+    rw [updCli_other _ _ _ _ hf h] at hc
+    exact hG c hc k hk
+
+theorem actFinish_rel (Q : Bytes → Bool) (w w' : W) (id : Nat) (e : Pm.Dev2.ActErr) (name : Bytes) (g : Nat)
+    (hc : cliRec w g = cliRec w' g) (hS : Pm.Dev2.SAgree Q w.store w'.store) (hG : GOk Q w g) :
+    cliRec (actFinish w id e name).1 g = cliRec (actFinish w' id e name).1 g ∧ GOk Q (actFinish w id e name).1 g := by
+  by_cases h : id = g
+  · subst h
+    have e1 : w.clients.find? (·.id == id) = cliRec w id := rfl
+    have e2 : w'.clients.find? (·.id == id) = cliRec w' id := rfl
+    unfold actFinish
+    rw [e1, e2, ← hc]
+    cases hq : cliRec w id with
+    | none => exact ⟨hc, hG⟩
+    | some c =>
+      have hid : c.id = id := by
+        have : w.clients.find? (·.id == id) = some c := hq
+        simpa using List.find?_some this
+      dsimp only
+      cases hk : c.cmd with
+      | none => exact ⟨hc, hG⟩
+      | some k =>
+        dsimp only
+        have hN : NamesQ Q k.names := hG c hq k hk
+        have hfr : finalReply c.exprange { k with error := k.error || (e != .success), args := (storeArgs w k.al).map argC }
+            = finalReply c.exprange { k with error := k.error || (e != .success), args := (storeArgs w' k.al).map argC } := by
+          refine finalReply_entries _ _ _ ?_ ?_ ?_
+          · rfl
+          · rfl
+          · exact replyEntries_agree Q { k with error := k.error || (e != .success) } w.store w'.store hS hN
+        split
+        · rw [← hfr]
+          split
+          · rw [hid]
+            refine ⟨updCli_rel _ _ _ _ _ (fun _ => rfl) hc, updCli_GOk Q _ _ _ _ (fun _ => rfl) ?_ hG⟩
+            intro c0 k' _ hk'; simp [put] at hk'
+          · exact ⟨hc, hG⟩
+        · rw [hid]
+          refine ⟨updCli_rel _ _ _ _ _ (fun _ => rfl) hc, updCli_GOk Q _ _ _ _ (fun _ => rfl) ?_ hG⟩
+          intro c0 k' _ hk'
+          simp only [put, Option.some.injEq] at hk'
+          rw [← hk']; exact hN
+  · rw [actFinish_other _ _ _ _ _ h, actFinish_other _ _ _ _ _ h]
+    refine ⟨hc, ?_⟩
+    intro c hcc k hk
+    rw [actFinish_other _ _ _ _ _ h] at hcc
+    exact hG c hcc k hk
+
+theorem applyOut_store (name : Bytes) (acc : W × List String) (o : Pm.Dev2.Out) : (applyOut name acc o).1.store = acc.1.store := by
+  have := congrArg W.store (applyOut_sans name acc o)
+  simpa [sansClients] using this
+
+theorem updCli_put_GOk (Q : Bytes → Bool) (w : W) (id g : Nat) (b : Bytes) (hG : GOk Q w g) :
+    GOk Q (updCli w id fun c => put c b) g :=
+  updCli_GOk Q w id g _ (fun _ => rfl) (fun c k' hc hk' => hG c hc k' hk') hG
+
+theorem applyOut_rel (Q : Bytes → Bool) (name : Bytes) (acc acc' : W × List String) (o : Pm.Dev2.Out) (g : Nat)
+    (hc : cliRec acc.1 g = cliRec acc'.1 g) (hS : Pm.Dev2.SAgree Q acc.1.store acc'.1.store) (hG : GOk Q acc.1 g) :
+    cliRec (applyOut name acc o).1 g = cliRec (applyOut name acc' o).1 g ∧ GOk Q (applyOut name acc o).1 g ∧
+    Pm.Dev2.SAgree Q (applyOut name acc o).1.store (applyOut name acc' o).1.store := by
+  refine ⟨?_, ?_, by rw [applyOut_store, applyOut_store]; exact hS⟩
+  · obtain ⟨w, msgs⟩ := acc
+    obtain ⟨w', msgs'⟩ := acc'
+    cases o with
+    | finish cid e => exact (actFinish_rel Q w w' cid e name g hc hS hG).1
+    | telemetry cid t => exact updCli_rel _ _ _ _ _ (fun _ => rfl) hc
+    | diag cid t => exact updCli_rel _ _ _ _ _ (fun _ => rfl) hc
+    | sent _ => exact hc
+    | rxMismatch _ _ => exact hc
+    | abortAssert _ => exact hc
+  · obtain ⟨w, msgs⟩ := acc
+    obtain ⟨w', msgs'⟩ := acc'
+    cases o with
+    | finish cid e => exact (actFinish_rel Q w w' cid e name g hc hS hG).2
+    | telemetry cid t => exact updCli_put_GOk Q w cid g _ hG
+    | diag cid t => exact updCli_put_GOk Q w cid g _ hG
+    | sent _ => exact hG
+    | rxMismatch _ _ => exact hG
+    | abortAssert _ => exact hG
+
+theorem foldl_applyOut_rel (Q : Bytes → Bool) (name : Bytes) (g : Nat) (outs : List Pm.Dev2.Out) (acc acc' : W × List String)
+    (hc : cliRec acc.1 g = cliRec acc'.1 g) (hS : Pm.Dev2.SAgree Q acc.1.store acc'.1.store) (hG : GOk Q acc.1 g) :
+    cliRec (outs.foldl (applyOut name) acc).1 g = cliRec (outs.foldl (applyOut name) acc').1 g ∧
+    GOk Q (outs.foldl (applyOut name) acc).1 g := by
+  induction outs generalizing acc acc' with
+  | nil => exact ⟨hc, hG⟩
+  | cons o r ih =>
+    obtain ⟨h1, h2, h3⟩ := applyOut_rel Q name acc acc' o g hc hS hG
+    exact ih _ _ h1 h3 h2
+
+/-- two runs of `applyOuts` with the same callbacks, on worlds that agree on client `g`'s record and on the store entries
+    of `Q`-nodes (where `g`'s targets lie): client `g`'s record is the same afterwards -/
+theorem applyOuts_rel (Q : Bytes → Bool) (w w' : W) (name : Bytes) (outs : List Pm.Dev2.Out) (g : Nat)
+    (hc : cliRec w g = cliRec w' g) (hS : Pm.Dev2.SAgree Q w.store w'.store) (hG : GOk Q w g) :
+    cliRec (applyOuts w name outs).1 g = cliRec (applyOuts w' name outs).1 g ∧ GOk Q (applyOuts w name outs).1 g := by
+  rw [applyOuts_eq, applyOuts_eq]
+  exact foldl_applyOut_rel Q name g outs _ _ hc hS hG
 
 end Pm.Daemon
 
